@@ -1,5 +1,13 @@
 package main
 
+import (
+	"fmt"
+	"go/types"
+	"strings"
+
+	"golang.org/x/tools/go/ssa"
+)
+
 func init() { registry["C17"] = checkC17 }
 
 func checkC17(c *Ctx) {
@@ -49,6 +57,41 @@ func checkC17(c *Ctx) {
 	c.evalAcceptRule(p, "C17.threshold", "empty share list is refused", cs, map[string]lat{"shares": latSliceLen(0)}, nil, false)
 	c.guard(p, "C17.threshold", "combined signature is returned only after the self-check y^e == x", cs, GuardSpec{Args: map[string]lat{"shares": latNonEmpty}, Assumes: []Assume{calleeAssume(latInt(1), -1, "(*math/big.Int).Cmp")}})
 	c.guardEachSite(p, "C17.threshold", "a failing Lagrange coefficient computation is an error", cs, 1, latNonNil, "tss/rsa.computeLambda")
+	// the share set S of the Lagrange coefficients λ(S,0,i) is the set the product ranges over
+	if cs != nil {
+		construct := fname(cs) + ": the Lagrange coefficients are computed for the same share set the product ranges over"
+		var sets, bases []string
+		for _, b := range cs.Blocks {
+			for _, in := range b.Instrs {
+				switch x := in.(type) {
+				case *ssa.Call:
+					if normName(p.staticCalleeName(&x.Call)) == "tss/rsa.computeLambda" && len(x.Call.Args) >= 2 {
+						sets = append(sets, descVal(x.Call.Args[1]))
+					}
+				case *ssa.IndexAddr:
+					if sl, ok := x.X.Type().Underlying().(*types.Slice); ok && strings.HasSuffix(sl.Elem().String(), "tss/rsa.SignShare") {
+						bases = append(bases, descVal(x.X))
+					}
+				}
+			}
+		}
+		okAll := len(sets) > 0 && len(bases) > 0
+		for _, b := range bases {
+			for _, s := range sets {
+				if b != s {
+					okAll = false
+				}
+			}
+		}
+		switch {
+		case len(sets) == 0 || len(bases) == 0:
+			c.undecided("C17.threshold", construct, "computeLambda call or share loop not found", p.fnPos(cs))
+		case okAll:
+			c.ok("C17.threshold", construct, fmt.Sprintf("both use %s", sets[0]), p.fnPos(cs))
+		default:
+			c.bad("C17.threshold", construct, fmt.Sprintf("λ is computed for %v but the shares are taken from %v", sets, bases), p.fnPos(cs))
+		}
+	}
 
 	// exact arithmetic
 	c.noFloat(p, "C17.exact", tr, ss, "math/polynomial", "math")
